@@ -41,15 +41,12 @@ AGES = {"400ms": 400, "fresh": 5_000, "15s-1": 14_999, "15s": 15_000, "15s+1": 1
 
 def grid(tier: str) -> List[Dict[str, Any]]:
     pts = []
-    ages = list(AGES) if tier != "quick" else ["400ms", "fresh", "30s-1", "30s", "30s+1", "200s", "1125s-1", "1125s+1", "5000s"]
+    ages = list(AGES)
     for q, probe, id_, port, fam, age, socks in itertools.product(
             QUESTIONS, (False, True), (0, 0x1234), (5353, 1234), ("v4", "v6"), ages, ("single", "dual")):
         if fam == "v6" and socks == "single":
             continue
-        if tier == "quick" and (id_ == 0 and port == 1234 or id_ == 0x1234 and port == 5353 and probe):
-            continue
-        if tier == "quick" and socks == "dual" and age not in ("400ms", "fresh", "30s+1", "5000s"):
-            continue
+
         pts.append({"q": q, "probe": probe, "id": id_, "port": port, "fam": fam, "age": age, "socks": socks})
     return pts
 
